@@ -124,6 +124,7 @@ def parse_impl(line):
     return {'kind': 'ok', 'dump': dump, 'flags': flags, 'maxreq': maxreq}
 
 def crash_outcome(rc, err):
+    if rc == 'wall-timeout': return {'kind': 'timeout'}
     m = re.search(r'ERROR: AddressSanitizer: ([A-Za-z0-9_-]+)', err)
     what = m.group(1) if m else ('signal-%s' % (-rc) if isinstance(rc, int) and rc < 0 else 'exit-%s' % rc)
     if 'Assertion' in err and what == 'ABRT': what = 'assertion'
@@ -317,7 +318,7 @@ def csv_cases(rng, quick):
 def run(ctx):
     quick = ctx.quick()
     build_lib(ctx, 'asan')
-    proofs_ok = coq_properties(ctx) if not os.environ.get('C09_DEV_NOPROOF') else True
+    proofs_ok = coq_properties(ctx)
     runner = build_runner(ctx)
     exe = build_harness(ctx, 'C09', flavor='asan')
     if runner is None or exe is None:
@@ -329,6 +330,16 @@ def run(ctx):
         check(ctx, quick, rng, runner, exe, tmpdir, proofs_ok)
     finally:
         shutil.rmtree(tmpdir, ignore_errors=True)
+
+def coq_witnesses():
+    out = []
+    txt = open(os.path.join(VERIF, 'coq', 'C09', 'Witness.v')).read()
+    tag2cls = {v: k for k, v in TAGS.items()}
+    for m in re.finditer(r'Definition (\w+) : list Z := \[([^\]]*)\]\.', txt):
+        data = bytes(int(x) for x in m.group(2).split(';') if x.strip())
+        tag = data.split(b'\n')[0].strip()
+        if tag in tag2cls: out.append((m.group(1), tag2cls[tag], data))
+    return out
 
 def make_corpus(ctx, exe, tmpdir):
     cf = os.path.join(tmpdir, 'gen.sx'); of = cf + '.out'
@@ -343,6 +354,9 @@ def check(ctx, quick, rng, runner, exe, tmpdir, proofs_ok):
     corpus = make_corpus(ctx, exe, tmpdir)
     ctx.log('corpus: %d valid files written by the library (%s)' % (len(corpus), ', '.join(sorted(set(CLS[c] for c, _ in corpus)))))
     cases = []     # (cls, label, bytes)
+    # the files of the Coq refutations (coq/C09/Witness.v) and the valid files of the non-vacuity examples, always first
+    for name, cls, data in coq_witnesses():
+        cases.append((cls, 'coq-witness:' + name, data))
     for cls, data in corpus:
         cases.append((cls, 'valid', data))
         for p in prefixes(rng, data, quick): cases.append((cls, 'prefix', data[:p]))
@@ -463,6 +477,8 @@ def check(ctx, quick, rng, runner, exe, tmpdir, proofs_ok):
         ctx.violation(key, text, replay, found_input=fi)
     ctx.cov['outcomes'] = stats
     ctx.cov['modelled_classes'] = sorted(CLS[c] for c in MODELLED)
+    ctx.cov['trusted_base'] += ['AddressSanitizer (g++ 12, -fsanitize=address) on library and harness; harness/C09.cpp replaces operator new to measure requests and to refuse > 256 MB (ASan max_allocation_size_mb=256 for malloc); 5 s CPU timer per load',
+                                'libstdc++ semantics of operator>> / num_get for int and double re-expressed in coq/C09/Model.v (parse_int, parse_double), tied by the correspondence on corrupted numbers']
     ctx.cov['unmodelled_classes'] = sorted(set(CLS[c] for c, _, _ in cases if c not in MODELLED))
     ctx.cov['rule'] = ('case = (loader, file content); files = every byte prefix of valid files written by the library (sampled around line ends for long files), token / line / '
                        'byte corruptions of them, byte streams, CSV and grid-exchange files; one load per case in a child process under AddressSanitizer (5 s CPU, 256 MB per request); '
